@@ -1,7 +1,7 @@
 """BOUNDED stand-in (never counted as proved) for streaming in bounded memory (C20), on the real code under
 /venv/bin/python: peak Python-level allocation (tracemalloc) while one member of S bytes is archived from disk to an
 archive on disk, and while it is extracted to disk and to a null writer, for S = 320 MiB and S = 640 MiB (thorough:
-also 1280 MiB) and the chains COPY, LZMA2 (preset 1), ZStandard (thorough: also BZip2, Deflate).  The sizes lie beyond
+also 1280 MiB for the two small-archive cases) and the chains COPY, LZMA2 (preset 1), ZStandard (thorough: also BZip2, Deflate).  The sizes lie beyond
 the 128 MB chunk that get_memory_limit() allows one decoding step to produce, where a bounded working set has
 stopped growing.
 
@@ -123,14 +123,15 @@ def main():
         print(json.dumps({"reproduced": bool(bad), "detail": "%s: %.1f MiB at 320 MiB, %.1f MiB at 640 MiB" % (op, a[op] / MIB, b[op] / MIB)}))
         return 0
     tier = sys.argv[1] if len(sys.argv) > 1 else "quick"
-    sizes = [320 * MIB, 640 * MIB] + ([1280 * MIB] if tier == "thorough" else [])
+    sizes = [320 * MIB, 640 * MIB]
+    big = {("lzma2", "rep"), ("zstd", "rep")} if tier == "thorough" else set()  # these two also at 1280 MiB
     combos = [(c, k) for c in CHAINS for k in ("half", "rep")] if tier == "thorough" else [("lzma2", "rep"), ("zstd", "half"), ("zstd", "rep"), ("deflate", "rep")]
     d = tempfile.mkdtemp(prefix="verif_mem.", dir=os.environ.get("VERIF_SCRATCH") or None)
     t0 = time.time()
     bad, table = [], []
     try:
         for chain, kind in combos:
-            peaks = [measure(chain, kind, s, d) for s in sizes]
+            peaks = [measure(chain, kind, s, d) for s in sizes + ([1280 * MIB] if (chain, kind) in big else [])]
             table.append({"chain": chain, "data": kind, "peaks_mib": [{k: round(v / MIB, 1) for k, v in p.items() if k != "error"} for p in peaks]})
             for op in ("create", "extract-to-disk", "extract-to-writer"):
                 lo, hi = peaks[0][op], peaks[1][op]
@@ -144,7 +145,7 @@ def main():
                 bad.append({"case": {"chain": chain, "data": kind}, "failure": "round trip lost bytes"})
     finally:
         shutil.rmtree(d, ignore_errors=True)
-    print(json.dumps({"runs": len(combos) * len(sizes) * 3, "seconds": round(time.time() - t0, 1), "table": table, "failures": bad[:3]}))
+    print(json.dumps({"runs": (len(combos) * len(sizes) + len(big)) * 3, "seconds": round(time.time() - t0, 1), "table": table, "failures": bad[:3]}))
     return 0
 
 
